@@ -155,6 +155,33 @@ pub fn equal<const N: usize, const SR: usize, const SQ: usize>() {
     std::mem::forget(m);
 }
 
+fn same_pair(a: &Option<(WordMatch, WordMatch)>, b: &Option<(WordMatch, WordMatch)>) -> bool {
+    match (a, b) {
+        (None, None) => true,
+        (Some((ra, qa)), Some((rb, qb))) => ra.subslice == rb.subslice && qa.subslice == qb.subslice && ra.typos == rb.typos
+            && ra.fin == rb.fin && ra.func == rb.func && qa.func == qb.func && ra.offset == rb.offset && qa.offset == qb.offset,
+        _ => false,
+    }
+}
+
+/// C06 / C10: the matcher's verdict for a pair of words does not depend on what was matched
+/// before (thread-local distance matrix and Jaccard buffers are reused): pair A first thing,
+/// then ANOTHER pair B, then A again.
+pub fn local<const N: usize, const S: usize>() {
+    setcap(N);
+    let ra = any_txt_stems::<N, 1>([(0, N)], [S], true);
+    let qa = any_txt_stems::<N, 1>([(0, N)], [S], true);
+    let rb = any_txt_stems::<N, 1>([(0, N)], [S], true);
+    let qb = any_txt_stems::<N, 1>([(0, N)], [S], true);
+    let (rat, qat, rbt, qbt) = (ra.text(), qa.text(), rb.text(), qb.text());
+    let m1 = vh::word_match(&rat.view(0), &qat.view(0));
+    let mb = vh::word_match(&rbt.view(0), &qbt.view(0));
+    let m2 = vh::word_match(&rat.view(0), &qat.view(0));
+    assert!(same_pair(&m1, &m2), "C06/C10: the matcher's verdict depends on what was matched before");
+    crate::witness!(m1.is_some() && mb.is_none(), "A matches while B does not");
+    std::mem::forget(m1); std::mem::forget(mb); std::mem::forget(m2);
+}
+
 macro_rules! cases {
     ($($name:ident = $body:expr;)*) => {
         $(
@@ -191,6 +218,7 @@ cases! {
     wm_typo_5_sub = typo::<5, 5, 0, 5, 5>(); wm_typo_5_ins = typo::<5, 6, 1, 5, 6>(); wm_typo_5_del = typo::<5, 4, 2, 5, 4>(); wm_typo_5_tr = typo::<5, 5, 3, 5, 5>();
     wm_typo_5_sub_s4 = typo::<5, 5, 0, 4, 4>(); wm_typo_5_del_s4 = typo::<5, 4, 2, 4, 4>(); wm_typo_5_ins_s4 = typo::<5, 6, 1, 4, 5>(); wm_typo_5_tr_s3 = typo::<5, 5, 3, 3, 3>();
     wm_typo_6_sub = typo::<6, 6, 0, 6, 6>(); wm_typo_6_ins = typo::<6, 7, 1, 6, 7>(); wm_typo_6_del = typo::<6, 5, 2, 6, 5>(); wm_typo_6_tr = typo::<6, 6, 3, 6, 6>();
+    wm_local_1 = local::<1, 1>(); wm_local_2 = local::<2, 2>(); wm_local_3 = local::<3, 3>();
     // equal<N, SR, SQ>
     wm_eq_1 = equal::<1, 1, 1>(); wm_eq_2 = equal::<2, 2, 2>(); wm_eq_2_s1 = equal::<2, 1, 1>(); wm_eq_3 = equal::<3, 3, 3>(); wm_eq_3_s2 = equal::<3, 2, 2>();
     wm_eq_4 = equal::<4, 4, 4>(); wm_eq_4_s2 = equal::<4, 2, 3>(); wm_eq_5 = equal::<5, 5, 5>(); wm_eq_5_s3 = equal::<5, 3, 3>();
